@@ -5,19 +5,19 @@ ROOT = os.path.dirname(os.path.dirname(os.path.abspath(__file__)))
 ALL = ["C%02d" % i for i in range(1, 19)]
 EXEC_NOTE = "Trusts the reference model (pv/ref/model.py; calibrated by triaging every disagreement with the real compiler at ~60 seeds and three thorough runs; the execution path is calibrated against the 27 upstream chinook result snapshots, the model itself is not - DESIGN.md 9.2), pinned SQLite 3.49.1 as the executing engine for sql.sqlite/sql.generic, and the unspecified-value discipline (undetermined outcomes are skipped and counted). Other dialects are not executed."
 CHECKS = {
- "C01": dict(technique="runtime reference-model monitor: random relational-core programs x database instances compiled by the real compiler, executed on pinned SQLite, rows compared as bags with an independent interpreter; plus the 27 upstream chinook integration queries against the result snapshots recorded upstream",
+ "C01": dict(technique="runtime reference-model monitor: random relational-core programs x database instances compiled by the real compiler, executed on pinned SQLite, rows compared as bags with an independent interpreter; an enumerated distinct matrix (group KEYS (sort? | take n) x step between x final projection); plus the 27 upstream chinook integration queries against the result snapshots recorded upstream",
     text="Exploration: every judged execution's rows (values and multiplicities) equal the documented meaning of the pipeline; evidence lists split shapes, transform bigrams and SQL rewrites actually exercised.", note=EXEC_NOTE, design="DESIGN.md §3 C01 and §9"),
  "C02": dict(technique="runtime monitor over all operator nestings: printer (documented precedence) -> real parser tree equality, and emitted SQL value vs tree value on a NULL/negative/zero/int/float domain table",
     text="Exploration, exhaustive over the 578 (parent, child, side) operator triples and unary adjacencies, random deeper trees: held means parse trees and SQL values matched the documented operand tree on every judged row.", note=EXEC_NOTE, design="DESIGN.md §3 C02 and §9"),
  "C03": dict(technique="runtime reference-model monitor of row ORDER: executed row sequence must be a concatenation of the model's tie groups (partial order for the left rows of a right/full join); take positions; static ORDER BY presence",
     text="Exploration with a sort-centred workload: order established by sort survives select/derive/filter/take/left-join and CTE boundaries, takes select by position.", note=EXEC_NOTE, design="DESIGN.md §3 C03 and §9"),
- "C04": dict(technique="runtime reference-model monitor of window segments (partition x order x rows/range bounds) for every window-capable std function; row-count preservation",
+ "C04": dict(technique="runtime reference-model monitor of window segments (partition x order x rows/range bounds) for every window-capable std function; row-count preservation; cross-dialect differential: the OVER clauses (partition size, order directions, frame) of every other dialect's statement must equal those of the executed sql.sqlite statement",
     text="Exploration over function x frame-kind x bounds x placement cells; values depending on tie order are not judged.", note=EXEC_NOTE, design="DESIGN.md §3 C04 and §9"),
  "C05": dict(technique="runtime monitor of result column lists (sqlite3_column_name) against the model's frame and the compiler's own RQ frame; leaked helper-column detection; for sql.duckdb / sql.snowflake / sql.bigquery (not executable here) a static frame monitor computes the result columns from the parsed statement over the schema (stars expanded, EXCLUDE / EXCEPT lists applied) incl. an enumerated several-stars x hidden-column matrix",
     text="Exploration with a projection-centred workload: count, order and names of result columns.", note=EXEC_NOTE + " Blind spot: for frames that contain a wildcard AND a join ([W] ... join), the listed finding KF-C05-5 covers count / name / order mismatches, so a new column-list defect confined to such frames would be attributed to it. Wildcard frames without a join are judged strictly except for trailing helper columns (KF-C05-2); fully known frames ([K]) are judged strictly. On the EXCLUDE dialects helper columns leaking in programs that contain a sort are attributed to KF-C05-11, lost exclusions in front of further transforms to KF-C05-10.", design="DESIGN.md §3 C05 and §9"),
  "C06": dict(technique="metamorphic runtime monitor: base vs rewritten program (let-prefix, user function in 4 calling styles, filter split/merge, frame identities, module path) executed on the same database, BOTH sides compared with the reference model (exactly one side deviating = violation); 40% boundary programs cut at every (prefix-end kind, suffix-start kind) pairing",
     text="Exploration over (base, rewrite site, rewrite kind) pairs and compositions of two; evidence lists boundary kind pairs covered.", note=EXEC_NOTE, design="DESIGN.md §3 C06 and §9"),
- "C07": dict(technique="runtime monitors on emitted SQL for all 12 dialects: sqlparser's grammar for the dialect, an AST scope/binding monitor, and SQLite prepare (the real engine of sql.sqlite) for the sqlite/generic output of random relational programs and of ~750 schema-based feature programs (set operations, distinct, literals of every lexable form, boundary takes/frames)",
+ "C07": dict(technique="runtime monitors on emitted SQL for all 12 dialects: sqlparser's grammar for the dialect, an AST scope/binding monitor, and SQLite prepare (the real engine of sql.sqlite) for the sqlite/generic output of random relational programs and of ~750 schema-based feature programs (set operations incl. tops with compiler-added columns, let readers, a loop matrix, distinct, literals of every lexable form, boundary takes/frames); the scope monitor also reports a self-referencing CTE in a WITH list that is not RECURSIVE and an EXCLUDE list naming an unknown column",
     text="Exploration: every accepted program's statement is parsed per dialect, scope-checked and (sqlite/generic) prepared against the schema.", note="Trusts sqlparser 0.60 dialect grammars as stand-ins for the engines' parsers (they are permissive: only SQLite output is also checked by a real engine); the scope monitor reports only what it can decide. Blind spot: the listed finding KF-C07-2 covers scope errors in any pipeline containing a join.", design="DESIGN.md §3 C07 and §9"),
  "C08": dict(technique="runtime value round-trip monitor: hostile string values in every PRQL spelling x context x dialect; executed value on SQLite, literal decoded with the dialect's tokenizer, statement structure vs benign twin; numeric spellings",
     text="Exploration, exhaustive to length 2 (quick) / 3 (thorough) over a 12-symbol core alphabet all ordered pairs of special characters (digraphs), plus random hostile strings; plain spellings include raw CR/LF/tab.", note="The generator knows each value by construction from the documented escape table; sqlparser tokenizers stand in for the dialects.", design="DESIGN.md §3 C08 and §9"),
@@ -25,17 +25,17 @@ CHECKS = {
     text="Exploration over (identifier class, position) cells; static quoting check for all dialects on a sample; a collision matrix of programs that force the compiler to invent relation names while user tables/lets are called table_0..2.", note=EXEC_NOTE, design="DESIGN.md §3 C09 and §9"),
  "C10": dict(technique="runtime negative monitor: well-scoped programs with one scope-breaking edit must return Err on each of 8 repetitions",
     text="Exploration over (edit kind, name pool, enclosing transform) cells.", note="Trusts the generator's notion of a fully known frame (after select/aggregate/group-aggregate).", design="DESIGN.md §3 C10 and §9"),
- "C11": dict(technique="runtime determinism monitor against a sequential model (first call of a fresh process): repeated calls with failing/panicking calls in between, fresh processes, 16 barrier-released threads incl. first-call races, permuted file insertion orders; thorough tier adds a ThreadSanitizer build (-Zsanitizer=thread -Zbuild-std, self-tested) of the thread-stress program: 32 fresh processes x 8 threads over ~1500 programs, any race report is a violation; plus a Miri phase (cargo +nightly miri run, self-tested): two threads parse the same source under the interpreter's data-race detector",
+ "C11": dict(technique="runtime determinism monitor against a sequential model (first call of a fresh process): repeated calls with failing/panicking calls in between, fresh processes, 16 barrier-released threads incl. first-call races, permuted file insertion orders (incl. projects with syntax errors in several files), 400 many-names programs (every construct that carries a collection of names, written with 5-6 members); thorough tier adds a ThreadSanitizer build (-Zsanitizer=thread -Zbuild-std, self-tested) of the thread-stress program: 32 fresh processes x 8 threads over ~1500 programs, any race report is a violation; plus a Miri phase (cargo +nightly miri run, self-tested): two threads parse the same source under the interpreter's data-race detector",
     text="Exploration: byte equality of SQL, RQ JSON, formatted text and full error (reason, hints, span, code, display) across histories, processes, schedules and file orders.", note="Hash seeds and schedules are sampled, not enumerated (K repetitions per program).", design="DESIGN.md §3 C11 and §9"),
- "C12": dict(technique="runtime crash monitor: panic hook + catch_unwind, process exit status, deterministic allocation-count growth; corpus/random/mutant sources, size-doubling families to n=4096, mutated PL/RQ JSON, 707 well-formed-but-unusual feature programs x all entry points x 12 dialects x option combinations, hostile identifiers in every identifier position; thorough tier adds a Miri phase (self-tested): lex -> parse -> format -> re-parse of 192 short sources under the interpreter, any undefined-behaviour report is a violation",
+ "C12": dict(technique="runtime crash monitor: panic hook + catch_unwind, process exit status, deterministic allocation-count growth; corpus/random/mutant sources, size-doubling families to n=4096, mutated PL/RQ JSON, 707 well-formed-but-unusual feature programs x all entry points x 12 dialects x option combinations, hostile identifiers in every identifier position, the G-mistake phase (10k / 115k well-formed programs wrong in type, arity or place), C07's schema feature programs; thorough tier adds a Miri phase (self-tested): lex -> parse -> format -> re-parse of 192 short sources under the interpreter, any undefined-behaviour report is a violation",
     text="Exploration of every public entry point for panics, aborts (stack exhaustion) and super-polynomial logical cost.", note="debug-assertions and overflow-checks on; 8 MiB stack; sizes above 4096 unexplored; wall clock only as inconclusive watchdog. Blind spot: KF-C12-9 covers any resolver/lowering/formatter panic reached by MALFORMED input (mutants, token soup, mutated JSON); panics on well-formed input (corpus, generated, feature programs) are always reported.", design="DESIGN.md §3 C12 and §9"),
- "C13": dict(technique="runtime monitor of error locations: injected lexical/syntactic/resolution/type/SQL-stage errors with ASCII and multi-byte prefixes, single- and multi-file, spans within one line and across lines; span bounds, char boundaries, independently computed line/column, quoted line, offending token",
+ "C13": dict(technique="runtime monitor of error locations: injected lexical/syntactic/resolution/type/SQL-stage errors with ASCII and multi-byte prefixes, single- and multi-file, spans within one line and across lines, errors inside interpolations of strings with escapes; span bounds, char boundaries, independently computed line/column, quoted line, offending token",
     text="Exploration over (error class, prefix class, layout) cells.", note="A span is accepted if one unit (characters or bytes) makes all clauses true; sources with multi-byte text before the error fall under KF-C13-1 (byte offsets), ASCII sources are judged strictly.", design="DESIGN.md §3 C13 and §9"),
  "C14": dict(technique="runtime round-trip monitor of the formatter: parse -> format -> parse tree equality, idempotence, equal compile output",
     text="Exploration over feature programs, corpus, random programs and every operator nesting in minimal/full parentheses.", note="Tree equality ignores span and doc_comment keys.", design="DESIGN.md §3 C14 and §9"),
  "C15": dict(technique="runtime differential monitor: source -> PL -> JSON -> PL -> RQ -> JSON -> RQ -> SQL through the public json::* API vs one-shot compile (value equality, byte equality of re-serialised JSON, output/error equality)",
     text="Exploration over feature programs, corpus and random programs x dialects x options.", note="Equality is the types' own PartialEq; unstable-under-repetition cases are skipped (C11's business).", design="DESIGN.md §3 C15 and §9"),
- "C16": dict(technique="runtime invariant monitor (Rust, over the public ir::rq types) run on the RQ of every program that reaches RQ (definition before use, single definition, visibility narrowed by Aggregate, declaration order of tables, from/select framing)",
+ "C16": dict(technique="runtime invariant monitor (Rust, over the public ir::rq types) run on the RQ of every program that reaches RQ (definition before use, single definition, visibility narrowed by Aggregate, declaration order of tables, from/select framing); plus a feature phase (inline sub-pipelines nested 2-3 levels, functions over relations, scalar lets, loops, set operations, G-feat)",
     text="Exploration: unique column-id definitions, definition before use within a pipeline, tables declared before use, from/select framing and arity.", note="'visible' is read as defined earlier in the same pipeline; Loop bodies exempt from framing.", design="DESIGN.md §3 C16 and §9"),
  "C17": dict(
     technique="runtime monitor over the real lexer's output: exhaustive short strings + random token-fragment strings + corpus; oracle checks span bounds, char boundaries, order, gaps, and re-lex of every token slice; thorough tier re-runs the same monitor on 640 short hostile strings under Miri (self-tested), any undefined-behaviour report is a violation",
@@ -43,7 +43,7 @@ CHECKS = {
     note="Trusts the worker's monitor code (harness/pv-worker/src/c17.rs) and Rust's str::is_char_boundary; strings longer than the exhaustive bound are only sampled.",
     design="DESIGN.md §3 C17 and §9"),
  "C18": dict(
-    technique="runtime differential monitor: every program compiled under the full (option x header) matrix of 12 dialects + absent + sql.any + unknown; outputs compared byte-for-byte against the per-dialect baseline",
+    technique="runtime differential monitor: every program compiled under the full (option x header) matrix of 12 dialects + absent + sql.any + unknown; outputs compared byte-for-byte against the per-dialect baseline; plus a main_path phase (the relation to compile named through main_path: header-only vs option-only for all dialects)",
     text="Exploration: for each header-free program the real compiler is run on all judged (option, header) cells; held means option-over-header-over-generic precedence, unknown-name rejection and target-independent resolver acceptance were observed on every cell of every program.",
     note="Prepending a `prql target:` header is assumed to be a pure addition for programs that parse both with and without it (others are skipped and counted). Signature comment off; errors compared on (reason, hints).",
     design="DESIGN.md §3 C18 and §9"),
